@@ -1322,6 +1322,11 @@ class ClientObservation:
             self._future.set_exception(e)
 
         async def __anext__(self):
+            if self._future.cancelled():
+                # A previous __anext__ was cancelled while it waited (eg. by
+                # a timeout around it), which cancels the future it waited
+                # on; that is no statement about the observation.
+                self._future = asyncio.get_running_loop().create_future()
             f = self._future
             try:
                 result = await self._future
